@@ -462,6 +462,24 @@ impl Parser {
         quote!(#ty)
     }
 
+    /// Like [Parser::get_type] for the types given with `extras = ...` and `error = ...`:
+    /// type parameters are substituted and named lifetimes fixed to the source lifetime,
+    /// elided lifetimes (`fn(&str) -> usize`) are left alone.
+    pub fn get_associated_type(&self, ty: &mut Type) -> TokenStream {
+        traverse_type(ty, &mut |ty| {
+            if let Type::Path(tp) = ty {
+                if tp.qself.is_none() {
+                    if let Some(substitute) = self.types.find(&tp.path) {
+                        *ty = substitute;
+                    }
+                }
+            }
+            self.types.fix_named_lifetimes_implicit(ty);
+        });
+
+        quote!(#ty)
+    }
+
     pub fn err<M>(&mut self, message: M, span: Span) -> &mut Errors
     where
         M: Into<Cow<'static, str>>,
